@@ -60,10 +60,10 @@ const (
 type bnode struct {
 	kind   int
 	prev   *bnode
-	arr    *Term  // nkArr: content[i] = select(arr, i)
-	conc   []byte // nkConc: content[i] = conc[i] (0 beyond)
+	arr    *Term   // nkArr: content[i] = select(arr, i)
+	conc   []byte  // nkConc: content[i] = conc[i] (0 beyond)
 	vars   []*Term // nkVars: content[i] = vars[i] (0 beyond); pure bit-vector encoding of small inputs
-	idx    *Term  // nkStore
+	idx    *Term   // nkStore
 	val    *Term
 	dst, n *Term // nkCopy: content[dst+k] = src[srcOff+k] for k < n
 	src    *bnode
